@@ -47,7 +47,10 @@ type Contract struct {
 	Extern     bool
 	Pure       bool
 	Functional bool // pure and a function of its (first-class) arguments only: modelled as an uninterpreted function plus its postconditions
+	Deterministic bool // assumed (not checked): the result is a function of the arguments; modelled like functional
 	Inline     bool
+	Propagates []string // property tags: an error returned by a callee makes this function return an error
+	HasPropagates bool
 	Trusted    bool // contract is assumed, body not verified (listed in evidence)
 	Requires   []*Clause
 	Ensures    []*Clause
@@ -71,6 +74,7 @@ type SpecFunc struct {
 }
 
 type ContractSet struct {
+	NonNilMaps []ast.Expr // map types whose stored values are never nil (checked at every update, assumed at every lookup)
 	SpecFuncs map[string]*SpecFunc
 	Funcs   map[string]*Contract
 	Order   []string
@@ -89,7 +93,7 @@ type Lemma struct {
 	Line    int
 }
 
-var kwRe = regexp.MustCompile(`^(func|extern|lemma|emits|specfunc|requires|ensures|invariant|modifies|ghost|define|pure|functional|inline|trusted|assume|prove)\b`)
+var kwRe = regexp.MustCompile(`^(func|extern|lemma|emits|specfunc|mapinv|requires|ensures|invariant|modifies|ghost|define|pure|functional|deterministic|propagates|inline|trusted|assume|prove)\b`)
 var propRe = regexp.MustCompile(`^\[([A-Z0-9, ]+)\]\s*`)
 var invRe = regexp.MustCompile(`^invariant\[(\d+)\]\s*`)
 
@@ -152,6 +156,13 @@ func (cs *ContractSet) ParseFile(path string) error {
 			continue
 		case "func", "extern", "lemma":
 			skipping = false
+		case "mapinv":
+			te, err := parser.ParseExpr(strings.TrimSuffix(strings.TrimSpace(r.text), " nonnil"))
+			if err != nil {
+				return fmt.Errorf("%s: mapinv: %v", loc, err)
+			}
+			cs.NonNilMaps = append(cs.NonNilMaps, te)
+			continue
 		case "specfunc":
 			// specfunc name(T1, T2) R
 			fe, err := parser.ParseExpr("func" + r.text[strings.Index(r.text, "("):] + "{}")
@@ -234,7 +245,18 @@ func (cs *ContractSet) ParseFile(path string) error {
 			} else {
 				return fmt.Errorf("%s: ghost outside contract", loc)
 			}
-		case "pure", "inline", "trusted", "functional":
+		case "propagates":
+			if cur == nil {
+				return fmt.Errorf("%s: propagates outside contract", loc)
+			}
+			cur.HasPropagates = true
+			if m := propRe.FindStringSubmatch(r.text + " "); m != nil {
+				for _, p := range strings.Split(m[1], ",") {
+					cur.Propagates = append(cur.Propagates, strings.TrimSpace(p))
+					cur.Props[strings.TrimSpace(p)] = true
+				}
+			}
+		case "pure", "inline", "trusted", "functional", "deterministic":
 			if cur == nil {
 				return fmt.Errorf("%s: %s outside contract", loc, r.kw)
 			}
@@ -244,6 +266,9 @@ func (cs *ContractSet) ParseFile(path string) error {
 			case "functional":
 				cur.Pure = true
 				cur.Functional = true
+			case "deterministic":
+				cur.Pure = true
+				cur.Deterministic = true
 			case "inline":
 				cur.Inline = true
 			case "trusted":
